@@ -87,6 +87,7 @@ impl DecodeBuffer {
             self.buffer.reserve(match_length);
             if end_idx > buf_len {
                 // We need to copy in chunks.
+                vhit!(buf_repeat_chunked);
                 self.repeat_in_chunks(offset, match_length, start_idx);
             } else {
                 // can just copy parts of the existing buffer
@@ -99,6 +100,7 @@ impl DecodeBuffer {
                 //      Thus follows: start_idx + match_length <= self.buffer.len()
                 //
                 // 2. explicitly reserved enough memory for the whole match_length
+                vhit!(buf_repeat_plain);
                 unsafe {
                     self.buffer
                         .extend_from_within_unchecked(start_idx, match_length)
@@ -151,6 +153,7 @@ impl DecodeBuffer {
             let bytes_from_dict = offset - self.buffer.len();
 
             if bytes_from_dict > self.dict_content.len() {
+                vhit!(buf_repeat_dict_missing);
                 return Err(DecodeBufferError::NotEnoughBytesInDictionary {
                     got: self.dict_content.len(),
                     need: bytes_from_dict,
@@ -158,12 +161,14 @@ impl DecodeBuffer {
             }
 
             if bytes_from_dict < match_length {
+                vhit!(buf_repeat_dict_straddle);
                 let dict_slice = &self.dict_content[self.dict_content.len() - bytes_from_dict..];
                 self.buffer.extend(dict_slice);
 
                 self.total_output_counter += bytes_from_dict as u64;
                 return self.repeat(self.buffer.len(), match_length - bytes_from_dict);
             } else {
+                vhit!(buf_repeat_dict_inside);
                 let low = self.dict_content.len() - bytes_from_dict;
                 let high = low + match_length;
                 let dict_slice = &self.dict_content[low..high];
@@ -171,6 +176,7 @@ impl DecodeBuffer {
             }
             Ok(())
         } else {
+            vhit!(buf_repeat_too_far);
             Err(DecodeBufferError::OffsetTooBig {
                 offset,
                 buf_len: self.buffer.len(),
@@ -286,6 +292,15 @@ impl DecodeBuffer {
 
         if n1 != 0 {
             let (written1, res1) = write_bytes(&slice1[..n1]);
+            #[cfg(feature = "verif_hooks")]
+            {
+                if n2 != 0 {
+                    vhit!(buf_drain_two_slices);
+                }
+                if written1 != n1 {
+                    vhit!(buf_drain_partial);
+                }
+            }
             #[cfg(feature = "hash")]
             self.hash.write(&slice1[..written1]);
             drain_guard.amount += written1;
@@ -325,6 +340,38 @@ fn write_all_bytes(mut sink: impl Write, buf: &[u8]) -> (usize, Result<(), Error
         }
     }
     (written, Ok(()))
+}
+
+#[cfg(feature = "verif_hooks")]
+impl DecodeBuffer {
+    /// Verification hook: (pointer, capacity, head, tail) of the underlying ring buffer
+    pub fn verif_ring_state(&self) -> (usize, usize, usize, usize) {
+        self.buffer.verif_state()
+    }
+
+    /// Verification hook: the counter used to decide if the dictionary can still be reached
+    pub fn verif_total_output_counter(&self) -> u64 {
+        self.total_output_counter
+    }
+
+    /// Verification hook: the two slices of buffered data
+    pub fn verif_as_slices(&self) -> (&[u8], &[u8]) {
+        self.buffer.as_slices()
+    }
+
+    /// Verification hook: mix the state that influences decoding into the fingerprint
+    pub fn verif_fingerprint(&self, h: &mut crate::verif::Fnv) {
+        let (s1, s2) = self.buffer.as_slices();
+        h.u64((s1.len() + s2.len()) as u64);
+        h.bytes(s1);
+        h.bytes(s2);
+        h.u64(self.dict_content.len() as u64);
+        h.bytes(&self.dict_content);
+        h.u64(self.window_size as u64);
+        h.u64(self.total_output_counter);
+        #[cfg(feature = "hash")]
+        h.u64(self.hash.finish());
+    }
 }
 
 #[cfg(test)]
